@@ -66,7 +66,7 @@ def guardOf (s : Site) : Bool :=
 compute/write/telemetry, adapter construction, T3 tracing, cache invalidation, store apply errors,
 sidecar write).  The T2 quality layers live inside the T2 stage: see `qualitySites`. -/
 def declared : List Site :=
-  [.bootLoad, .gelMergeCand, .gelApplyMerge, .gelSplitCand, .gelApplySplit, .gelPromote, .gelApplyPromo,
+  [.bootLoad, .gelObserve, .gelTick, .gelMergeCand, .gelApplyMerge, .gelSplitCand, .gelApplySplit, .gelPromote, .gelApplyPromo,
    .reflectRun, .reflectCompute, .reflectWrite, .reflectLog, .adapterBuild, .t3Trace,
    .cacheInvalidate, .storeBatch, .storeOne, .sidecarWrite]
 
@@ -78,7 +78,7 @@ def qualitySites : List (Fn × Callee) :=
    (.write_sidecar_meta, .atomic_write_text)]
 
 /-- sites that are NOT in the property's list and are unprotected in the current source (observations) -/
-def observedUnguarded : List Site := [.gelObserve, .gelTick, .snapshotBody, .health]
+def observedUnguarded : List Site := [.snapshotBody, .health]
 
 /-! ## values -/
 
@@ -383,12 +383,13 @@ def phT2 (c : Cfg) (e : Env) : Phase := fun k =>
       let k' := { k with t2 := o, cacheHit := false }
       yieldCheck c e .T2 k' .empty [t2Rec o none false] [.t2]
 
-/-- GEL observe (a bare call in the current source: `g .gelObserve` decides) -/
+/-- GEL observe: `try: gel_observe(...) except Exception: <no record>` (fix `C20_gel_observe_tick_fail_soft`;
+before it a bare call — `g .gelObserve` decides); the `gel` record is written only when the pass returned -/
 def phGelObserve (g : Site → Bool) (c : Cfg) (e : Env) : Phase := fun k =>
   if c.graphEnabled && !c.dryRun then
-    match tryD g .gelObserve 0 e.gelObserve with
-    | .error x => .error x
+    match e.gelObserve with
     | .ok m => cont k [⟨.gel, [(.event, .n 1), (.tok, .n m)]⟩] [.gelObserve]
+    | .error x => if g .gelObserve then cont k [] [.gelObserve] else .error x
   else cont k [] []
 
 /-- backend selection + adapter construction fallback; returns (utter, llmUsed, fallback, adapter', calls) -/
@@ -468,9 +469,9 @@ def phT4 (c : Cfg) (e : Env) : Phase := fun k =>
 
 def phGelTick (g : Site → Bool) (c : Cfg) (e : Env) : Phase := fun k =>
   if c.t4Enabled && c.graphEnabled then
-    match tryD g .gelTick 0 e.gelTick with
-    | .error x => .error x
+    match e.gelTick with
     | .ok m => cont k [⟨.gel, [(.event, .n 2), (.tok, .n m)]⟩] [.gelTick]
+    | .error x => if g .gelTick then cont k [] [.gelTick] else .error x
   else cont k [] []
 
 /-- apply `f 0 … f (n-1)`; stop at the first failure -/
@@ -666,8 +667,9 @@ def idleE (S : Site → Bool) (s : Site) (d : α) (r : Except Exc α) : Except E
 
 /-- The run in which the failing subsystems of `S` are idle (boot finds nothing, adapter builder returns
 no adapter, reflection produces nothing / writes nothing / logs nothing, invalidation removes nothing,
-a failing single-delta apply edits nothing, sidecar not written).  GEL-block and batch-apply sites are left
-as they are: see `gelBlock_off` and `storeBatch_fallback`. -/
+a failing single-delta apply edits nothing, sidecar not written).  GEL observe/tick, GEL-block and batch-apply
+sites are left as they are: see `C20_gel_observe_fail_eq_off`, `C20_gel_tick_fail_eq_off`, `gelBlock_off` and
+`storeBatch_fallback`. -/
 def idle (S : Site → Bool) (e : Env) : Env :=
   { e with
     bootLoad := idleE S .bootLoad none e.bootLoad
@@ -678,8 +680,6 @@ def idle (S : Site → Bool) (e : Env) : Env :=
     reflect := idleE S .reflectCompute ⟨0, 0⟩ e.reflect
     reflectWrite := idleE S .reflectWrite 0 e.reflectWrite
     reflectLog := idleE S .reflectLog () e.reflectLog
-    gelObserve := idleE S .gelObserve 0 e.gelObserve
-    gelTick := idleE S .gelTick 0 e.gelTick
     snapBody := idleE S .snapshotBody () e.snapBody
     health := idleE S .health () e.health }
 
